@@ -128,4 +128,20 @@ def parseSuite (limit : Nat) (protoOnly : Bool) (relies : Bool) : List SuiteCase
     | none => none
     | some ls => (parseSuite limit protoOnly relies cs).map (ls :: ·)
 
+/-! ## the limit the runner configures a server process with (`runTestCasesForServer`) -/
+
+/-- a server instance (`serverInstance`): protocol and HTTP version as their enum numbers, TLS,
+TLS client certificates; `isRef`: the process is the reference server -/
+structure Instance where
+  protocol : Nat
+  httpVersion : Nat
+  useTLS : Bool
+  clientCerts : Bool
+  isRef : Bool
+
+/-- `ServerCompatRequest.message_receive_limit` as `runTestCasesForServer` writes it for an
+instance: "We always set this" — the constant the padding is relative to, whatever the
+instance is -/
+def limitSent (limit : Nat) (_inst : Instance) : Nat := limit
+
 end ConfModel.Expand
